@@ -172,7 +172,20 @@ def rule_ambiguity_writers(ctx, rep, config="c-lib"):
                         if v is not None and (v.d.get("var") == "n_candidates" or (v.op == "phi" and v.d.get("var") == "n_candidates")) and const_int(cc.ops[1]) == 0:
                             if (cc.d["pred"] == "ne") == pol:
                                 dep = True
-                    if c == 1 and dep:
+                    # ... and on EVERY path from that test (no further condition, e.g. on the translation)
+                    every = False
+                    for (cc, pol) in conds:
+                        v = f.inst(strip_casts(f, cc.ops[0]))
+                        if v is not None and v.d.get("var") == "n_candidates" and const_int(cc.ops[1]) == 0 and (cc.d["pred"] == "ne") == pol:
+                            for br in f.uses().get(cc.id, []):
+                                if br.op == "br" and len(br.ops) == 3:
+                                    tsucc = br.ops[2]["v"] if cc.d["pred"] == "ne" else br.ops[1]["v"]
+                                    if tsucc == s.block.name:
+                                        every = True
+                    if c == 1 and dep and not every:
+                        rep.violation("C05-writers", key, "the ambiguity flag is set only under a further condition after a second candidate derivation was found: some ambiguities "
+                                                          "(e.g. of untranslated symbols) are not reported", where=s.where(), witness=[s.where()])
+                    elif c == 1 and dep:
                         rep.ok("C05-writers", key, sample={"store": s.where(), "value": 1, "under": "n_candidates != 0"})
                     else:
                         rep.violation("C05-writers", key, "make_parse sets the ambiguity flag to %s / not exactly when a second candidate is found" % c, where=s.where())
